@@ -703,12 +703,64 @@ class Canon:
                     kwargs.append(("**", v))
             else:
                 kwargs.append((kw.arg, self.expr(kw.value)))
+        # calls of repository functions: keyword arguments are bound to their positions and omitted parameters
+        # are filled with the callee's (literal) defaults, so f(a, k=b) / f(a, b) / f(a) with default b coincide
+        if self.model is not None and not any(isinstance(a, ast.Starred) for a in e.args) and not any(k == "**" for k, _ in kwargs):
+            bound = self._bind_call(e, args, kwargs)
+            if bound is not None:
+                args, kwargs = bound
         # range(0, n) == range(n)
         if fn == ("g", "range") and len(args) == 2 and args[0] == k_num(0):
             args = [args[1]]
         if fn == ("g", "float") and len(args) == 1 and is_num(args[0]):
             return args[0]
         return mk_call(fn, args, kwargs)
+
+    def _bind_call(self, e: ast.Call, args: list, kwargs: list):
+        try:
+            callees = self.model.resolve_call(self.fi, e)
+        except Exception:
+            return None
+        if len(callees) != 1:
+            return None
+        g = callees[0]
+        a = g.node.args
+        if a.vararg or a.kwarg or a.kwonlyargs or a.posonlyargs:
+            return None
+        params = [x.arg for x in a.args]
+        if g.kind in ("method", "property", "setter", "classmethod") and params:
+            params = params[1:]
+        if g.kind == "staticmethod":
+            pass
+        n_def = len(a.defaults)
+        defaults = {}
+        all_params = [x.arg for x in a.args]
+        for name, d in zip(all_params[len(all_params) - n_def:], a.defaults):
+            defaults[name] = d
+        if len(args) > len(params):
+            return None
+        out = list(args)
+        kw = dict(kwargs)
+        rest = params[len(args):]
+        given = [i for i, name in enumerate(rest) if name in kw]
+        if not given:
+            return (out, []) if not kw else None
+        for name in rest[:given[-1] + 1]:     # trailing parameters that are not passed stay absent
+            if name in kw:
+                out.append(kw.pop(name))
+            elif name in defaults:
+                d = defaults[name]
+                if isinstance(d, ast.Constant):
+                    out.append(self._e_Constant(d))
+                elif isinstance(d, ast.UnaryOp) and isinstance(d.op, ast.USub) and isinstance(d.operand, ast.Constant) and isinstance(d.operand.value, (int, float)):
+                    out.append(k_num(-d.operand.value))
+                else:
+                    out.append(("default", g.qualname, name))
+            else:
+                return None
+        if kw:
+            return None
+        return out, []
 
     def _e_IfExp(self, e: ast.IfExp) -> S:
         return mk_ite(self.expr(e.test), self.expr(e.body), self.expr(e.orelse))
